@@ -32,10 +32,10 @@ RULE = ("one case = (current report, optional previous report) built from random
 ASSUMPTIONS = ["LC_ALL=C.UTF-8 (no thousands separators) and a console 400 columns wide, so no cell is wrapped or truncated",
                "file paths and function names of the workload contain no '[' (rich console markup in the Markdown renderer is not part of the property)",
                "a totals row is required only with two or more languages (with one language that row is the total)"]
-BOUNDS = {"quick": dict(n=32, pairs=10000, findings=3000, commands=4), "thorough": dict(n=64, pairs=80000, findings=20000, commands=40)}
+BOUNDS = {"quick": dict(n=32, pairs=10000, findings=3000, commands=4), "thorough": dict(n=64, pairs=300000, findings=60000, commands=40)}
 MINIMUM = {"quick": {"monitor.overviews_parsed": 15000, "monitor.findings_parsed": 10000, "monitor.delta_cells_checked": 100000,
                      "monitor.command_runs": 500, "monitor.cli_runs": 40},
-           "thorough": {"monitor.overviews_parsed": 250000, "monitor.findings_parsed": 70000, "monitor.delta_cells_checked": 1000000,
+           "thorough": {"monitor.overviews_parsed": 500000, "monitor.findings_parsed": 200000, "monitor.delta_cells_checked": 3000000,
                         "monitor.command_runs": 2000}}
 LANGS = ["C", "C++", "C#", "Java", "JavaScript", "TypeScript", "Python"]
 CELL = re.compile(r"(\d+)(?: \(([+-]\d+)\))?")
